@@ -18,7 +18,7 @@ SYMS = ['DEBUG', 'MODE', 'FEATURE', 'LEVEL']
 DEFAULT_W = dict(label=10, const=3, instr=24, data=10, string=4, fill=4, zerountil=2, org=2, orgrel=2, memzone=3, align=3,
                  createzone=1, cond=5, mute=2, other=2, define=1)
 
-FAULTS = ['undef_ref', 'register_ref', 'local_no_region', 'dup_label', 'neg_fill', 'align0', 'bad_escape', 'overflow',
+FAULTS = ['diamond_include', 'includer_file_label', 'nested_dup_include', 'undef_ref', 'register_ref', 'local_no_region', 'dup_label', 'neg_fill', 'align0', 'bad_escape', 'overflow',
           'unknown_zone', 'org_out', 'overlap', 'dup_include', 'missing_include', 'ambiguous_include', 'unmatched',
           'dup_zone', 'bad_zone', 'enum_bad', 'range_bad', 'const_fwd', 'dup_define', 'keyword_label', 'cross_region',
           'cross_file']
@@ -452,6 +452,21 @@ class ProgGen:
         elif kind == 'cross_file' and len(files) > 1:
             files[1]['stmts'].append(['label', '_only_inc'])
             main.append(['data', 2, [('lab', '_only_inc')]])
+        elif kind == 'includer_file_label' and len(files) > 1:
+            # the included file uses a file-scoped label that only its includer defines
+            main.insert(0, ['label', '_only_main'])
+            files[-1]['stmts'].append(['data', 2, [('lab', '_only_main')]])
+        elif kind == 'diamond_include' and len(files) > 2:
+            # file 2 is included by the main file and (again) by file 1
+            files[1]['stmts'].append(['include', 2, files[2]['name']])
+            if not any(st[0] == 'include' and st[1] == 2 for f in files[:1] for st in f['stmts']):
+                main.append(['include', 2, files[2]['name']])
+        elif kind == 'nested_dup_include' and len(files) > 2:
+            # file 1 includes file 2 first, the main file includes it again later
+            files[1]['stmts'].insert(0, ['include', 2, files[2]['name']])
+            main[:] = [st for st in main if not (st[0] == 'include' and st[1] == 2)]
+            idx1 = [i for i, st in enumerate(main) if st[0] == 'include' and st[1] == 1]
+            main.insert((idx1[0] + 1) if idx1 else len(main), ['include', 2, files[2]['name']])
         return kind
 
     # ------------------------------------------------------------------ whole case
@@ -484,6 +499,15 @@ class ProgGen:
         files = [{'name': 'main.asm', 'dir': 'src', 'stmts': [st for st, _ in skels[0]]}]
         for idx in range(1, nfiles):
             files.append({'name': f'inc{idx}.asm', 'dir': rng.choice(['src', 'lib']), 'stmts': [st for st, _ in skels[idx]]})
+        if nfiles > 2 and rng.random() < 0.4:
+            # nest: the last file is included from file 1 instead of from the main file (same position in the flat order
+            # only if it directly follows; either way a legal program)
+            m = files[0]['stmts']
+            pos = [i for i, st in enumerate(m) if st[0] == 'include' and st[1] == 2]
+            if pos:
+                del m[pos[0]]
+                files[1]['stmts'].insert(rng.randrange(len(files[1]['stmts']) + 1), ['include', 2, 'inc2.asm'])
+                self.nested = True
         case = {'cfg': self.cfg, 'files': files, 'include_dirs': ['lib'], 'extra_files': [], 'fault': None}
         if rng.random() < self.prof.get('p_fault', 0.12):
             case['fault'] = self.inject_fault(files, case)
@@ -545,3 +569,62 @@ def gen_placement(rng, tier):
                  {'name': 'inc1.asm', 'dir': 'src', 'stmts': stmts[cut:]}]
     return {'cfg': cfg, 'files': files, 'include_dirs': [], 'extra_files': [], 'fault': 'placement',
             'opts': {'start': 0x18, 'end': 0x3f, 'fill': 0xEE}}
+
+
+def gen_paste_pair(rng, tier):
+    """C17 metamorphic pair: a program split over include files, and the same text pasted in place, built so that the
+    side conditions under which "paste" is meaningful hold (see DESIGN.md C17): includes at nesting depth 0 with the
+    mute counter at 0 and GLOBAL selected; included files keep to GLOBAL, are mute-balanced, start with a non-local
+    label and are followed by one; file-scoped names are distinct across files."""
+    prof = {'w': {'org': 0, 'orgrel': 0, 'memzone': 0, 'createzone': 0, 'mute': 0, 'cond': 2, 'label': 14, 'align': 1},
+            'p_include': 1.0, 'p_fault': 0.0, 'p_zones': 0.0, 'p_ref': 0.6, 'p_window': 0.2}
+    for _ in range(20):
+        g = ProgGen(rng, prof, tier)
+        case = g.generate()
+        files = case['files']
+        if len(files) < 2 or getattr(g, 'nested', False):
+            continue
+        ok = True
+        # rename file-scoped names per file so that they are disjoint
+        def rename(st, k):
+            import json
+            t = json.dumps(st)
+            for nm in FILEL + ['_fk']:
+                t = t.replace('"' + nm + '"', '"' + nm + '_' + str(k) + '"')
+            return json.loads(t)
+        files2 = []
+        for k, f in enumerate(files):
+            files2.append(dict(f, stmts=[rename(st, k) for st in f['stmts']]))
+        # includes only at depth 0 in main
+        depth = 0
+        main = []
+        n_lab = 0
+        for st in files2[0]['stmts']:
+            if st[0] == 'if':
+                depth += 1
+            elif st[0] == 'endif':
+                depth -= 1
+            if st[0] == 'include':
+                if depth != 0 or st[1] is None:
+                    ok = False
+                    break
+                n_lab += 1
+                main.append(st)
+                main.append(['label', f'after_inc{n_lab}'])
+            else:
+                main.append(st)
+        if not ok:
+            continue
+        files2[0] = dict(files2[0], stmts=main)
+        for k in range(1, len(files2)):
+            files2[k] = dict(files2[k], stmts=[['label', f'inc_entry{k}']] + files2[k]['stmts'])
+        split = dict(case, files=files2)
+        pasted_main = []
+        for st in files2[0]['stmts']:
+            if st[0] == 'include':
+                pasted_main += files2[st[1]]['stmts']
+            else:
+                pasted_main.append(st)
+        pasted = dict(case, files=[dict(files2[0], stmts=pasted_main)])
+        return {'split': split, 'pasted': pasted}
+    return None
